@@ -26,7 +26,8 @@ def plan(tier, seed):
                        dict(n=2, m=3, labels='letters', schemes='one', configs='cbc', per=6, **nr),
                        dict(n=3, m=2, labels='ints', schemes='one', configs='fast_det', premutate=True, **nr),
                        dict(n=3, m=2, labels='mixed_strings', schemes='one', configs='fast_det', premutate=True, **nr),
-                       dict(space='ext43', labels='mixed_strings', schemes='ext1', configs='parcons_fast', per=300, **nr)],
+                       dict(space='ext43', labels='mixed_strings', schemes='ext1', configs='parcons_fast', per=300, **nr),
+                       dict(space='ext43', labels='mixed_zeros', schemes='ext1', configs='parcons_fast', per=300, **nr)],
             'absent_enum': [dict(n=3, m=2, labels='ints', schemes='two', configs='solver'),
                             dict(n=3, m=2, labels='letters_rev', schemes='one', configs='solver', **nr),
                             dict(n=3, m=2, labels='mixed_strings', schemes='one_b', configs='solver', **nr),
@@ -38,7 +39,10 @@ def plan(tier, seed):
                      dict(n=2, m=3, labels='ints_rev', schemes='one', configs='solver', **nr),
                      dict(n=1, m=2, labels='ints', schemes='two', configs='all'),
                      dict(n=4, m=2, labels='ints', schemes='one_b', configs='cplex', per=60, flags='one'),
-                     dict(space='ext43', labels='mixed_strings', schemes='ext1', configs='decomp', per=300)],
+                     dict(space='ext43', labels='mixed_strings', schemes='ext1', configs='decomp', per=300),
+                     dict(space='ext43', labels='mixed_zeros', schemes='ext1', configs='decomp', per=300),
+                     dict(space='ext43', labels='ints', twin_labels='mixed_strings', schemes='ext1', configs='decomp', per=300,
+                          reuse=True, flags='one')],
         }
     else:
         labs = ['ints', 'ints_rev', 'letters', 'digit_strings', 'mixed_strings', 'ints_collide', 'words']
@@ -135,6 +139,30 @@ def oracle(ctx, info):
         if bad:
             ctx.violation('consensus-ranking-views-inconsistent', info.case(result=str(rk)), bad, None)
             return
+    # reading the result (score, description, top-k, iteration) must leave it - and the dataset - as it was
+    try:
+        before = tuple(info.rankings())
+        c.kemeny_score, c.description(), str(c), len(c), c.nb_consensus, c.elements, c.nb_elements
+        for k in range(0, len(info.universe) + 2):
+            c.topk_ranking(k)
+            c.evaluate_topk_ranking([], k)
+        list(iter(c)), c[0]
+        after = tuple(info.back.ranking(r) for r in c.consensus_rankings)
+    except Exception as e:
+        ctx.violation('reading-the-consensus-raises', info.case(result=str(rk)), None, None, exc=e)
+        return
+    if after != before or any(wellformed(r, info.back, info.universe) for r in c.consensus_rankings):
+        ctx.violation('consensus-changed-by-reading-it', info.case(), after, before)
+        return
+    from ..lib import structural_rankings
+    want_ds = [tuple(frozenset((info.back.exp_type, info.back.exp_type(info.labels[x])) for x in b) for b in r) for r in info.ds]
+    try:
+        if structural_rankings(info.dataset) != want_ds:
+            ctx.violation('dataset-changed-by-computing-or-reading-the-consensus', info.case(), str(info.dataset), str(want_ds))
+            return
+    except Exception as e:
+        ctx.violation('dataset-unreadable-after-the-run', info.case(), None, None, exc=e)
+        return
     if len(info.universe) >= 2:
         ctx.nontrivial += 1
     if len(rk) > 1:
